@@ -2,7 +2,10 @@
 //! construction (Gsub!WFProgram, which the judge re-checks): coverage tables ascend, one set per
 //! covered glyph / class, sequence indices inside the input sequence, nested lookups exist, context
 //! nesting depth <= 3, no reverse-chaining lookup nested in a context, flags without reserved bits
-//! and without markAttachmentType + useMarkFilteringSet together, output glyphs inside the font.
+//! (markAttachmentType + useMarkFilteringSet together in about a third of the lookups that use a
+//! filtering set: Dev_MarkFilterPrecedence), output glyphs inside the font.
+//! `rng2` is a second stream for choices added later, so that the programs drawn from `rng` stay
+//! what they were.
 use rand::rngs::StdRng;
 use rand::seq::SliceRandom;
 use rand::{Rng, SeedableRng};
@@ -10,6 +13,7 @@ use serde_json::{json, Value};
 
 struct Gen {
     rng: StdRng,
+    rng2: StdRng,
     n: i64,
     hot: Vec<i64>,
     n_sets: usize,
@@ -112,6 +116,11 @@ impl Gen {
                 f &= !0x10;
             } else {
                 mfs = self.rng.gen_range(0..self.n_sets as i64);
+                // markAttachmentType on top of the filtering set (never with ignoreMarks' menu entry 0x18 only:
+                // that combination is drawn too, ignoreMarks then supersedes both filters)
+                if self.rng2.gen_bool(0.35) {
+                    f |= 0x100 * self.rng2.gen_range(1..=3);
+                }
             }
         }
         (f, mfs)
@@ -289,7 +298,8 @@ pub fn programs(seed: u64, n_prog: usize, n_str: usize) -> Vec<(String, Value, u
                 hot.push(*m);
             }
         }
-        let mut g = Gen { rng, n, hot, n_sets, has_gdef };
+        let rng2 = StdRng::seed_from_u64(seed.wrapping_mul(0xD1B5_4A32_D192_ED03).wrapping_add(pi as u64) ^ 0x5bd1_e995);
+        let mut g = Gen { rng, rng2, n, hot, n_sets, has_gdef };
         // lookup types; contexts refer to lookups decided from the back so that nesting depth <= 3
         let n_lookups = g.rng.gen_range(1..=8usize);
         let mut types: Vec<i64> =
